@@ -481,9 +481,15 @@ def cases(ctx):
                 continue
             first_insert = False
             tn = usable[ctx.seed % len(usable)]
-            new_ids = [r[0] for r in template(tn, rep, info)["rows"]]
-            for alt in insert_alternatives(info, rep, new_ids):
-                out.append({"kind": "prog", "base": base, "rep": rep, "template": tn, "insert": alt})
+            chosen = [tn]
+            if len(template(tn, rep, info)["rows"]) < 2:
+                # the "split" placements need at least two new parameters: whatever the rotation picked, the
+                # first template with two or more new parameters is explored as well
+                chosen += [t for t in usable if len(template(t, rep, info)["rows"]) >= 2][:1]
+            for tn in chosen:
+                new_ids = [r[0] for r in template(tn, rep, info)["rows"]]
+                for alt in insert_alternatives(info, rep, new_ids):
+                    out.append({"kind": "prog", "base": base, "rep": rep, "template": tn, "insert": alt})
     out.append({"kind": "python-base"})
     # validity family (all bases with a `valid` clause, both tiers)
     for base in VOP:
